@@ -155,6 +155,43 @@ fn judge(p: &Pairing, state: &NTree, model: &Model, op: &Op, rm: &Res, rs: &Res,
     ok
 }
 
+/// (path, observation, name of the first differing query) triples through the public API; link entries are left to
+/// the known Entry::mode question and owner ids are only compared under uid 1000
+fn api_observe_diffable<V: VirtualFileSystem>(v: &V, universe: &[String], unpriv: bool) -> Vec<(String, String, String)> {
+    let mut out = vec![];
+    for p in universe {
+        let is_link = matches!(exec(v, &Op::IsSymlink(p.clone())), Res::Bool(true));
+        let q = |op: Op| match exec(v, &op) {
+            Res::Err(_) => "Err".to_string(),
+            r => format!("{:?}", r),
+        };
+        let mut items: Vec<(&str, String)> = vec![
+            ("exists", q(Op::Exists(p.clone()))),
+            ("is_dir", q(Op::IsDir(p.clone()))),
+            ("is_file", q(Op::IsFile(p.clone()))),
+            ("is_symlink", q(Op::IsSymlink(p.clone()))),
+            ("is_symlink_dir", q(Op::IsSymlinkDir(p.clone()))),
+            ("is_symlink_file", q(Op::IsSymlinkFile(p.clone()))),
+            ("read", q(Op::ReadBytes(p.clone()))),
+            ("read_all", q(Op::ReadAll(p.clone()))),
+            ("readlink", q(Op::Readlink(p.clone()))),
+            ("readlink_abs", q(Op::ReadlinkAbs(p.clone()))),
+            ("mode", q(Op::Mode(p.clone()))),
+            ("paths", q(Op::Paths(p.clone()))),
+        ];
+        if !is_link {
+            items.push(("is_exec", q(Op::IsExec(p.clone()))));
+        }
+        if unpriv {
+            items.push(("owner", q(Op::Owner(p.clone()))));
+        }
+        for (n, r) in items {
+            out.push((format!("{}({})", n, p), r, n.to_string()));
+        }
+    }
+    out
+}
+
 fn alphabet(paths: &[String], unpriv: bool) -> Vec<Op> {
     let mut all: Vec<String> = vec!["/".into()];
     all.extend(paths.iter().cloned());
@@ -271,7 +308,7 @@ fn c02(ctx: &Ctx, rep: &mut Report) {
     // (a) state x call
     let paths = namespace(&["a", "b"], 2);
     let (muts, _) = sweep_alphabet(&paths, false);
-    let cap = if ctx.thorough { 8000 } else { 900 };
+    let cap = if ctx.thorough { 12_000 } else { 1_200 };
     let (states, complete) = enumerate_states(&muts, cap);
     if !complete {
         rep.exhaustive = false;
@@ -280,6 +317,10 @@ fn c02(ctx: &Ctx, rep: &mut Report) {
         }
     }
     let ops = alphabet(&paths, unpriv);
+    let mut obs_paths: Vec<String> = vec!["/".into()];
+    obs_paths.extend(paths.iter().cloned());
+    obs_paths.push("/zz".into());
+    obs_paths.push("/zz/n".into());
     let mut n_states = 0;
     for (si, (state, _)) in states.iter().enumerate() {
         // each uid configuration sees every state: shards of equal parity share the states among them
@@ -340,7 +381,25 @@ fn c02(ctx: &Ctx, rep: &mut Report) {
             rep.eval();
             set_case(&format!("diff:{}({}):returns→stalls", op.name(), arg_classes(state, &model, op)), &format!("{:?} on {:?}", op, state.nodes.keys().collect::<Vec<_>>()));
             let (rm, rs, tm, ts) = pairing.step(&mem, op);
-            judge(&pairing, state, &model, op, &rm, &rs, &tm, &ts, &[], rep);
+            let ok = judge(&pairing, state, &model, op, &rm, &rs, &tm, &ts, &[], rep);
+            // after a mutating call that both sides accepted, every path of the namespace is also observed through
+            // the two APIs (what a user of either backend can see): a state that only shows through later calls -
+            // left-over data, stale link information - is caught here and not only in multi-step histories
+            if ok && !op.is_query() && !rs.is_err() && in_domain_state(&unmap_ntree(&tm, &root)) {
+                // (only paths that do not pass through a symlink in the new state: the domain clause)
+                let post_v = unmap_ntree(&tm, &root);
+                let universe: Vec<String> = obs_paths.iter().filter(|p| !through_link(&post_v, Some(p.as_str()))).map(|p| map_path(p, &root)).collect();
+                let (om, os) = (api_observe_diffable(&mem, &universe, unpriv), api_observe_diffable(&Stdfs::new(), &universe, unpriv));
+                rep.count("api_observations_after_mutators", 1);
+                if om != os {
+                    let d: Vec<String> = om.iter().zip(os.iter()).filter(|(a, b)| a != b).take(3).map(|(a, b)| format!("{} => memfs {} | stdfs {}", a.0, a.1, b.1)).collect();
+                    let first = om.iter().zip(os.iter()).find(|(a, b)| a != b).map(|(a, _)| a.2.clone()).unwrap_or_default();
+                    rep.violation(
+                        &format!("diff:{}({}):same-observations-afterwards→{}-differs", op.name(), arg_classes(state, &model, op), first),
+                        J::obj(vec![("uid", J::s(if unpriv { "uid1000" } else { "root" })), ("state", state.to_json()), ("call", J::s(op.describe())), ("differences", J::strs(&d.iter().map(|x| x.replace(&root, "<R>")).collect::<Vec<_>>()))]),
+                    );
+                }
+            }
             let _ = std::env::set_current_dir(&root);
             if rep.want_sample() && matches!(op, Op::MoveP(..)) && !rs.is_err() && state.nodes.len() > 3 {
                 rep.sample(J::obj(vec![("uid", J::s(if unpriv { "1000" } else { "0" })), ("state", state.to_json()), ("call", J::s(op.describe())), ("both_backends", J::s(norm_res(&rs, unpriv, op).replace(&root, "<R>")))]));
@@ -352,7 +411,7 @@ fn c02(ctx: &Ctx, rep: &mut Report) {
     // (b) multi-step histories in one sandbox
     let hpaths = namespace(&["a", "b", "c"], 2);
     let mut rng = ctx.rng("c02-hist");
-    let n_hist = if ctx.thorough { 3000 } else { 120 } / ctx.shards + 1;
+    let n_hist = if ctx.thorough { 6000 } else { 200 } / ctx.shards + 1;
     let mut uidc = (ctx.shard as u64) << 40;
     for _ in 0..n_hist {
         wipe(&root);
